@@ -79,4 +79,47 @@ theorem stop_refines (s1 : Rules.St) (i : Nat) (f : FCfg) :
       some (if (s1.devs i).repOn then coilOff (upd s1 i { s1.devs i with repOn := false }) f.main else s1) := by
   cases hr : (s1.devs i).repOn <;> mgr_simp <;> simp [hr] <;> mgr_simp
 
+/-! ## `AutofireCoil.enable` / `disable` as translated from the source do what `enableDev` / `disableDev` do
+
+`enable`: the selection of recycle (`coil_overwrite` first, else the coil's default with None read as True), of debounce
+(`switch_overwrite` first, else the switch's own, "normal" only), the choice between the plain and the delayed rule setter and the
+arguments they are called with give exactly the row `autofireEntry` and the PSU handler of `specsOf`; `_enabled` is set last.
+`disable`: the re-enable delay is removed even when the device is disabled; the rule is cleared only when enabled. -/
+
+macro "af_simp" : tactic => `(tactic|
+  simp [genAf, callS, execSL, execSS, evalS, evalE, evalC, evalSArgs, argLocals, afStore, afCtx, SCtx.at, pb, PyVal.truthy,
+        applyAf, applyAfEff, Eff.arg, List.lookup, upd_upd, pure, Except.pure, bind, Except.bind, pyCmp, PyVal.num, cmpOp,
+        optB, optN, debS, af_enable, af_disable, upd, clearRules, *])
+
+theorem af_disable_refines (c : Cfg) (s : Rules.St) (i : Nat) (a : ACfg) (hk : (c.dev i).kind = .autofire a) :
+    applyAf (c.dev i) a i s (genAf a (s.devs i) af_disable) = some (disableDev c s i) := by
+  unfold disableDev
+  simp only [hk]
+  cases he : (s.devs i).enabled <;> af_simp
+
+@[simp] theorem vNatD_optN (d : Nat) (x : Option Nat) : vNatD d (optN x) = x.getD d := by
+  cases x <;> simp [vNatD, optN]
+
+@[simp] theorem vNatD_succ (d n : Nat) : vNatD d (.int ((n : Int) + 1)) = n + 1 := by
+  simp only [vNatD]; omega
+@[simp] theorem succ_ne_zero_int (n : Nat) : (((n : Int) + 1) != 0) = true := by
+  simp only [bne_iff_ne, ne_eq]; omega
+
+macro "afe_simp" : tactic => `(tactic|
+  simp [genAf, callS, execSL, execSS, evalS, evalE, evalC, evalSArgs, argLocals, afStore, afCtx, SCtx.at, pb, PyVal.truthy,
+        applyAf, applyAfEff, Eff.arg, List.lookup, pure, Except.pure, bind, Except.bind, pyCmp, PyVal.num, cmpOp,
+        optB, debS, af_enable, upd, installRules, entriesOf, auxOf, specsOf, concatMap, autofireEntry, rowOfCall, auxOfCall,
+        b2n, *])
+
+theorem af_enable_refines (c : Cfg) (s : Rules.St) (i : Nat) (a : ACfg) (hk : (c.dev i).kind = .autofire a)
+    (hok : installable (c.dev i) = true) :
+    applyAf (c.dev i) a i s (genAf a (s.devs i) af_enable) = some (enableDev c s i) := by
+  unfold enableDev
+  simp only [hk, hok]
+  cases he : (s.devs i).enabled
+  · obtain ⟨sw, coil, reverse, nc, swDeb, owDeb, owRecycle, defRecycle, owPulse, defPulse, owPower, delay, ok, watch, maxHits, disableMs, fired⟩ := a
+    rcases owRecycle with _ | r <;> rcases defRecycle with _ | _ | _ <;> rcases owDeb with _ | _ | _ <;> cases swDeb <;> cases delay <;> afe_simp
+  · af_simp
+
+
 end MpfVerif.RulesGen
